@@ -9,8 +9,9 @@ Sources of cases:
       (scan_chain) must equal the chain computed here in Python;
   (b) frame-pointer chains, scan-findable stacks and CFI-described stacks built in Python
       (props/c05.py::build_chain) for every CPU x OS, depth 1..64, also at the top of the address space;
-  (c) stacks mixing CFI and scan per frame (Python-built, and laid out by the Coq builder C04.Model.mix_layout, the
-      object of theorem c04_recovers_chain: words, chain and precondition from the model);
+  (c) stacks mixing CFI and scan per frame (Python-built), and stacks mixing CFI, frame-pointer and scan frames laid out
+      by the Coq builder C04.Model.mix_layout, the object of theorem c04_recovers_chain: words (incl. saved frame
+      pointers), chain and precondition from the model;
   (d)-(f) x86 STACK WIN stacks: frame data / FPO / STACK CFI mixed, direct recursion, and scan / STACK WIN / CFI mixes
       with grand-callee parameter sizes."""
 import subprocess
@@ -61,6 +62,7 @@ CALLEE_SAVED[5] = CALLEE_SAVED[4]
 CALLEE_SAVED[6] = CALLEE_SAVED[3]
 CFI_SP_IP = {0: ["esp", "eip"], 1: ["rsp", "rip"]}
 SCAN_VALID = {0: ["eip", "esp"], 1: ["rip", "rsp"], 2: ["r15", "r13"]}
+FP_VALID = {0: ["eip", "esp", "ebp"], 1: ["rip", "rsp", "rbp"], 3: ["pc", "sp", "x29"], 6: ["pc", "sp", "x29"]}
 
 
 def add_expected_validity(arch, exp):
@@ -70,6 +72,8 @@ def add_expected_validity(arch, exp):
     for e in exp:
         if e["trust"] == "cfi":
             v = set(n for n in CALLEE_SAVED[arch] if v is None or n in v) | set(CFI_SP_IP.get(arch, ["sp", "pc"]))
+        elif e["trust"] == "frame_pointer":
+            v = set(FP_VALID[arch])
         else:
             v = set(SCAN_VALID.get(arch, ["pc", "sp"]))
         e["valid"] = "+".join(sorted(v))
@@ -320,9 +324,12 @@ class C04(PropBase):
     impl_timeout = 3000     # wall-clock backstop only: a hanging case is ended by the per-case CPU-time watchdog of the harness
     model_timeout = 20000    # wall-clock backstop only: at load 170+ the thorough tier's Coq-built layouts took more than 3000 s of wall time (round 5)
     rule = ("cases = well-formed synthetic threads: (a) scan-findable stacks laid out by the Coq builder scan_layout, depth 1..64, gaps up "
-            "to the window edge (159 / 39 words; MIPS64 127); (a') stacks with the technique chosen per frame (CFI / scan) laid out by the Coq "
-            "builder mix_layout (words, expected chain mix_chain and the boolean precondition mix_wf_layout all from the extracted model; two CFI "
-            "modules with different frame sizes, look-alike return addresses in every CFI frame and in the skipped mips32 argument words); "
+            "to the window edge (159 / 39 words; MIPS64 127); (a') stacks with the technique chosen per frame (CFI / frame pointer / scan) laid out by the Coq "
+            "builder mix_layout (words incl. the saved frame pointers and the context's frame pointer, expected chain mix_chain and the boolean "
+            "precondition mix_wf_layout all from the extracted model; two CFI "
+            "modules with different frame sizes, look-alike return addresses in every CFI frame, in frame-pointer frames and in the skipped mips32 "
+            "argument words; frame-pointer frames on x86 / amd64 / arm64 in half of the stacks of depth >= 2, placed where the precondition allows: "
+            "while the frame pointer is valid, amd64 without a later scan frame, arm64 before the first CFI frame - see F-C04a); "
             "(b) frame-pointer chains, scan-findable and CFI-described stacks for every CPU "
             "(x86, amd64, arm, arm64, arm64_old, mips32, mips64) x OS (other, windows, ios), depth 1..64, 1-3 modules, also at the top of the "
             "address space; (c) stacks mixing CFI and scan per frame; (d) x86 stacks whose functions are described by STACK WIN frame-data / "
@@ -339,22 +346,29 @@ class C04(PropBase):
     ]
     manifest = {
         "text": "PARTIAL. Theorems (Coq, unbounded depth by induction on the list of frame specs, both profiles, any module lookup): "
-                "c04_recovers_chain — technique chosen PER FRAME between CFI (abstract correct symbol-file oracle, or any oracle agreeing with it on the "
-                "frames of the walk) and scanning, for x86, amd64, arm (not iOS), arm64(+old), mips32, mips64 (c04_mix_archs): every stack satisfying the "
+                "c04_recovers_chain — technique chosen PER FRAME among CFI (abstract correct symbol-file oracle, or any oracle agreeing with it on the "
+                "frames of the walk), frame pointer ([words][saved fp][ra], x86 / amd64 incl. its sanity checks and the Windows slack scan / arm64) and "
+                "scanning, for x86, amd64, arm (not iOS), arm64(+old), mips32, mips64 (c04_mix_archs): every stack satisfying the "
                 "boolean precondition mix_wf_layout (scan frames: return address inside the 160/40-word window of its callee after the skipped mips32 "
-                "argument words, acceptable to instruction_seems_valid, padding not; CFI frames: arbitrary words, callee's lookup address inside a "
-                "module) is walked to exactly the generated chain — one frame per call with return address, instruction = ra - adj, sp, trust cfi/scan, "
-                "validity set (callee-saved forwarded through CFI frames, {ip, sp} after a scan), general registers carried through CFI frames — and the "
-                "walk stops at the generated end; c04_recovers_chain_rules — the same with the CFI frames evaluated by cfi_rules, the evaluator of the rule "
+                "argument words, acceptable to instruction_seems_valid, padding not, the callee's frame pointer not valid or 0; CFI frames: arbitrary "
+                "words, callee's lookup address inside a module, a valid non-zero frame pointer only where CALLEE_SAVED_REGS names it as the technique "
+                "does (x86, amd64: F-C04a); frame-pointer frames: the callee's frame pointer valid and pointing at the saved word, canonical return "
+                "address, amd64: saved frame pointer and caller sp readable) is walked to exactly the generated chain — one frame per call with return "
+                "address, instruction = ra - adj, sp, trust cfi/frame_pointer/scan, recovered frame pointer, "
+                "validity set (callee-saved forwarded through CFI frames, {ip, sp, fp} after a frame-pointer frame, {ip, sp} after a scan), general "
+                "registers carried through CFI frames — and the walk stops at the generated end; c04_recovers_chain_rules — the same with the CFI frames evaluated by cfi_rules, the evaluator of the rule "
                 "family `.cfa: sp N + .ra: .cfa pw - ^` (sp validity, u64 wrapping, the read of the return address, register-width checks), under the "
                 "boolean rules_ok (each CFI frame's callee covered by a record with N = the frame size, each scan frame's callee by none); "
                 "c04_recovers_chain_reached — for any oracle agreeing with the correct one on the frames the walk reaches; c04_callee_saved pins the "
                 "forwarded register sets; c04_recovers_chain_partial_scan / _cfi / _cfi_any / _fp — one technique per walk (scan incl. mips32, "
                 "CFI, frame-pointer chains for x86, amd64 with/without the Windows slack scan, arm/iOS, arm64); c04_constants pins the documented "
-                "windows / slack. Frame-pointer frames inside a mix, STACK WIN and real STACK CFI text are covered by the correspondence run only: "
+                "windows / slack. Known finding F-C04a (arm64/arm: x29/r11 not forwarded through a CFI frame behind a frame-pointer frame; witness in "
+                "corpus/C04, c04_fp_behind_cfi_known_witness) is excluded by the precondition. STACK WIN and real STACK CFI text are covered by the "
+                "correspondence run only: "
                 "depth 1..64 stacks for every CPU x OS through the real walk_stack and the extracted model (incl. stacks laid out by the Coq builders "
                 "of the scan and mixed theorems), with an independent oracle comparing the frames with the generated chain.",
-        "note": "Partial: the mixed theorem covers CFI and scan frames (not frame-pointer frames inside a mix); CFI is the abstract correct oracle in "
+        "note": "Partial: in the mixed theorem a scan frame loses the frame pointer (x86/amd64 %ebp recovery by the scan is not in the mix: scanned "
+                "words are 0), ARM/iOS frame pointers and the arm64 leaf rule are in the single-technique theorems / the run only; CFI is the abstract correct oracle in "
                 "the theorems (c04_recovers_chain_rules evaluates one rule family over an abstract rule table, not rule text), the evaluation of rule text is C06's / C07's model inside C05's walker in the run. STACK WIN: all-FPO stacks of unbounded "
                 "depth are proved at C07 (c07_fpo_recovers_chain, on C07's model of walk_stack's loop with the translated from_ctx_and_args derivation); "
                 "frame-data programs, allocates_base_pointer = 1, mixes with STACK CFI and with scanned frames are covered by the run (d, e, f) through "
@@ -362,7 +376,8 @@ class C04(PropBase):
                 "Function names not observed (C11). Trusted: Coq kernel, hand-written walker model (correspondence-checked), extraction + glue.",
     }
     assumptions = ["stack memory little-endian; symbol provider = breakpad Symbolizer over string symbol files",
-                   "CFI evaluation abstract in the theorem (correct oracle); concrete rule family `.cfa: SP N + .ra: .cfa w - ^` in the run"]
+                   "CFI evaluation abstract in the theorem (correct oracle); concrete rule family `.cfa: SP N + .ra: .cfa w - ^` in the run",
+                   "F-C04a: arm64/arm stacks frame pointer -> CFI -> frame pointer are outside the precondition (known finding, corpus witness)"]
     _prof = "debug"
 
     def canon_model(self, case, ans):
@@ -447,9 +462,10 @@ class C04(PropBase):
         return exe if vlib.os.path.exists(exe) else vlib.os.path.join(vlib.CACHE, "ocaml", "c04", "model")
 
     def coq_mixed_layouts(self, rng, n):
-        """technique-per-frame (CFI / scan) stacks laid out by the extracted Coq builder mix_layout, the object of theorem
-        c04_recovers_chain: stack words, expected chain (mix_chain) and the boolean precondition (mix_wf_layout, with the
-        case's own module lookup and instruction_seems_valid) all come from the model; the chain is also computed here."""
+        """technique-per-frame (CFI / frame pointer / scan) stacks laid out by the extracted Coq builder mix_layout, the object
+        of theorem c04_recovers_chain: stack words (incl. the saved frame pointers and the context's frame pointer), expected
+        chain (mix_chain) and the boolean precondition (mix_wf_layout, with the case's own module lookup and
+        instruction_seems_valid) all come from the model; the chain is also computed here."""
         reqs, exps = [], []
         for _ in range(n):
             arch = rng.choice([0, 1, 2, 3, 4, 4, 5, 6])
@@ -467,23 +483,63 @@ class C04(PropBase):
             mods = [(cm[0], 0x10000, sym(0, 0x10000, 0, 0x10000, sizes[0] * pw, 0, pw, None)), (m1, 0x10000, "-"),
                     (cm[1], 0x10000, sym(0, 0x10000, 0, 0x10000, sizes[1] * pw, 0, pw, None))]
             base = 0x80000000 if bits == 32 else 0x00007ffd00000000
-            techs = [rng.choice([0, 1, 2]) for _ in range(depth + 1)]        # 0, 2: CFI module 0 / 1; 1: scan
-            modof = lambda t: m1 if t == 1 else cm[t // 2]
+            # 0, 2: CFI module 0 / 1; 1: scan; 3: frame pointer.  Frame-pointer frames (x86, amd64, arm64) where the theorem's
+            # precondition allows them: while the frame pointer is still valid (a scan loses it); amd64: no scan frame after a
+            # frame-pointer frame and not as the outermost frame (its sanity checks want readable addresses); arm64: before
+            # any CFI frame (the unwinder does not carry "x29" through a CFI frame behind a frame-pointer frame)
+            techs = [rng.choice([0, 1, 2]) for _ in range(depth + 1)]
+            if arch in (0, 1, 3, 6) and depth >= 2 and rng.chance(1, 2):
+                if arch == 0:
+                    nfp = rng.range(1, depth)
+                    for i in range(nfp):
+                        techs[i] = rng.choice([0, 2, 3, 3])
+                elif arch == 1:
+                    for i in range(depth):
+                        techs[i] = rng.choice([0, 2, 3, 3])
+                    techs[depth - 1] = rng.choice([0, 2])
+                else:
+                    nfp = rng.range(1, depth)
+                    for i in range(nfp):
+                        techs[i] = 3
+            modof = lambda t: m1 if t in (1, 3) else cm[t // 2]
             ip0 = modof(techs[0]) + 0x50
             lookalike = lambda: rng.choice([m1 + 0x300 + 4 * rng.below(64), cm[0] + 0x300 + 4 * rng.below(64), cm[1] + 0x300, 0, base + 8 * rng.below(64)])
-            specs, exp, off = [], [], 0
+            specs, exp, off, offs, lens = [], [], 0, [], []
             for i in range(depth):
                 t = techs[i]
                 ra = modof(techs[i + 1]) + 0x100 + 0x10 * (i % 100)
-                if t != 1:
+                if t == 3:
+                    fill = [lookalike() for _ in range(rng.range(0, 4))] + [0]      # the last word: the saved frame pointer (placeholder)
+                elif t != 1:
                     fill = [lookalike() for _ in range(sizes[t // 2] - 1)]
                 else:
                     lo = skip if i > 0 else 0
                     gap = rng.choice([0, 1, 5, (win_ctx if i == 0 else win) - 1])
                     fill = [lookalike() for _ in range(lo)] + [0] * gap
-                specs.append("%d %d %s%d" % (0 if t != 1 else 1, len(fill), "".join("%d " % w for w in fill), ra))
+                specs.append("%d %d %s%d" % ({1: 1, 3: 2}.get(t, 0), len(fill), "".join("%d " % w for w in fill), ra))
+                offs.append(off)
+                lens.append(len(fill))
                 off += len(fill) + 1
-                exp.append(dict(instr=ra - adj, resume=ra, sp=base + pw * off, trust="scan" if t == 1 else "cfi"))
+                exp.append(dict(instr=ra - adj, resume=ra, sp=base + pw * off, trust={1: "scan", 3: "frame_pointer"}.get(t, "cfi")))
+            # the frame pointer along the stack: what the callee of record i must hold (the saved-word slot of the next
+            # frame-pointer record reached through CFI records, 0 before a scan record, at the end 0 / amd64: the last word)
+            term = base + pw * (off - 1) if arch == 1 else 0
+
+            def need(i):
+                while i < depth:
+                    if techs[i] == 3:
+                        return base + pw * (offs[i] + lens[i] - 1)
+                    if techs[i] == 1:
+                        return 0
+                    i += 1
+                return term
+            st = need(0)
+            for i in range(depth):
+                if techs[i] == 3:
+                    st = need(i + 1)
+                elif techs[i] == 1:
+                    st = 0
+                exp[i]["fp"] = st
             reqs.append("M %d %d %d %d %d %s %d %s" % (arch, os_, base, ip0, depth, " ".join(specs), len(mods),
                                                       " ".join("%d %d %s" % m for m in mods)))
             exps.append(exp)
@@ -516,7 +572,7 @@ class C04(PropBase):
                 # both boolean preconditions of c04_recovers_chain_rules hold and the computed walk of the model with the rule
                 # evaluator is NOT the chain: the theorem (or the extraction) is broken -- cannot happen while the proof checks
                 self.rules_broken.append(case)
-            mine = "|".join("%d,%d,%d,%s" % (e["instr"], e["resume"], e["sp"], e["trust"]) for e in exp)
+            mine = "|".join("%d,%d,%d,%s,%d" % (e["instr"], e["resume"], e["sp"], e["trust"], e["fp"]) for e in exp)
             cases.append(case + " " + fmt_exp(add_expected_validity(int(case.split(" ", 1)[0]), exp)))
             if chain != mine:
                 self.chain_diff.append((cases[-1], chain[:200], mine[:200]))
@@ -529,13 +585,13 @@ class C04(PropBase):
         self.not_wf = 0
         cases = []
         dist = {"coq_scan_layouts": 0, "python_chains": {}, "mixed": 0}
-        n_a = 800 if tier == "quick" else 5000
+        n_a = 800 if tier == "quick" else 3000
         cases += self.coq_layouts(rng, n_a)
         dist["coq_scan_layouts"] = n_a
-        n_m = 500 if tier == "quick" else 2500
+        n_m = 500 if tier == "quick" else 2000
         cases += self.coq_mixed_layouts(rng, n_m)
-        dist["coq_mixed_cfi_scan_layouts"] = n_m
-        n_b = 4000 if tier == "quick" else 20000
+        dist["coq_mixed_cfi_fp_scan_layouts"] = n_m
+        n_b = 4000 if tier == "quick" else 12000
         for _ in range(n_b):
             arch = rng.choice([0, 1, 2, 3, 4, 5, 6])
             os_ = rng.choice([0, 1, 2])
@@ -546,23 +602,23 @@ class C04(PropBase):
             cases.append(case + " " + fmt_exp(exp))
             key = "%s/%s" % (ARCH[arch]["name"], tech)
             dist["python_chains"][key] = dist["python_chains"].get(key, 0) + 1
-        n_c = 1500 if tier == "quick" else 8000
+        n_c = 1500 if tier == "quick" else 5000
         for _ in range(n_c):
             arch = rng.choice([0, 1, 2, 3, 4, 4, 4, 5, 6])
             case, exp = mixed_stack(rng, arch, rng.choice([0, 1, 2]), rng.choice([1, 2, 3, 5, 8, 13, 21, 34, 64]))
             cases.append(case + " " + fmt_exp(exp))
             dist["mixed"] += 1
-        n_d = 1200 if tier == "quick" else 6000
+        n_d = 1200 if tier == "quick" else 4000
         for _ in range(n_d):
             case, exp = win_stack(rng, rng.choice([3, 4, 4, 5, 6, 8, 12, 20, 40]))
             cases.append(case + " " + fmt_exp(exp))
         dist["stack_win_x86"] = n_d
-        n_e = 600 if tier == "quick" else 3000
+        n_e = 600 if tier == "quick" else 2000
         for _ in range(n_e):
             case, exp = win_recursion_stack(rng, rng.choice([3, 3, 4, 5, 8, 16]))
             cases.append(case + " " + fmt_exp(exp))
         dist["stack_win_x86_recursion"] = n_e
-        n_f = 700 if tier == "quick" else 3500
+        n_f = 700 if tier == "quick" else 2500
         for _ in range(n_f):
             case, exp = win_scan_mix_stack(rng, rng.choice([2, 3, 3, 4, 5, 6, 8, 12, 20, 40]))
             cases.append(case + " " + fmt_exp(exp))
